@@ -1007,7 +1007,7 @@ func TestStructuredMutation(t *testing.T) {
 		if tr := os.Getenv("C14_TRACE"); tr != "" && strings.Contains(strings.Join(kinds, ","), tr) && strings.HasPrefix(outcome, "accepted") {
 			fmt.Printf("TRACE %s: %s\n%s\n", outcome, e.what, ksText(ks))
 		}
-		if strings.HasPrefix(outcome, "accepted") && strings.Contains(strings.Join(applied, ";"), ".version:") {
+		if strings.HasPrefix(outcome, "accepted") && len(applied) == 1 && strings.Contains(applied[0], ".version:") {
 			// not a violation of the property text (it does not demand that other versions are refused);
 			// recorded so that the evidence shows whether any parser let a changed version field through
 			evid.Add("accepted_after_version_field_change", 1)
